@@ -171,7 +171,10 @@ func writeDesc(w io.Writer, desc string, indent int, withDesc bool) (err error) 
 			shift = "\n" + shift
 			if _, err = w.Write([]byte(`"""`)); err == nil {
 				if _, err = w.Write([]byte(shift)); err == nil {
-					if _, err = w.Write([]byte(strings.ReplaceAll(desc, "\n", shift))); err == nil {
+					// Escape what the reader treats as special in a block string.
+					esc := strings.ReplaceAll(desc, `\`, `\\`)
+					esc = strings.ReplaceAll(esc, `"""`, `\"""`)
+					if _, err = w.Write([]byte(strings.ReplaceAll(esc, "\n", shift))); err == nil {
 						if _, err = w.Write([]byte(shift)); err == nil {
 							_, err = w.Write([]byte(`"""`))
 						}
@@ -180,10 +183,8 @@ func writeDesc(w io.Writer, desc string, indent int, withDesc bool) (err error) 
 			}
 		}
 	} else if _, err = w.Write([]byte(shift)); err == nil {
-		if _, err = w.Write([]byte{'"'}); err == nil {
-			if _, err = w.Write([]byte(desc)); err == nil {
-				_, err = w.Write([]byte{'"', '\n'})
-			}
+		if err = writeString(w, desc, true); err == nil {
+			_, err = w.Write([]byte{'\n'})
 		}
 	}
 	if err == nil {
